@@ -80,6 +80,11 @@ pub fn blocks(thorough: bool) -> Vec<Block> {
         b.push(Block::new(Universe::new("U_pairs{a,b}^<=5", &["a", "b"], 5, 2, false), vec![Cfg::new(R), Cfg::with(R, 1, 2), Cfg::new(R | E), Cfg::new(R | X)], "r, r(1,2), r+e, r+x"));
         b.push(Block::new(Universe::new("U_adv(A_gcm)", A_GCM, 3, 1, false), k1.clone(), "Lambda<=1 (no u,c)"));
         b.push(Block::new(Universe::new("U_adv(A_gcm)", A_GCM, 2, 2, false), vec![Cfg::new(0), Cfg::new(R), Cfg::new(X)], "{}, r, x"));
+        b.push(Block::new(u_kind_pairs(2, 2, false), vec![Cfg::new(0), Cfg::new(X), Cfg::new(R), Cfg::new(I), Cfg::new(E | X | NE)], "{}, x, r, i, e+x+ne"));
+        b.push(Block::new(u_runs(), k2.clone(), "Lambda<=2 (no u,c)"));
+        b.push(Block::new(u_long_rep(30), vec![Cfg::new(R), Cfg::new(R | NA | NE)], "r, r+na+ne"));
+        b.push(Block::new(u_long_runs(40), vec![Cfg::new(R), Cfg::new(R | W), Cfg::new(0)], "r, r+w, {}"));
+        b.push(Block::new(u_corpus("U_longstr", verif_seed() + 7, 4_000, &["a", "b", "c"], (1, 1), (40, 90)), vec![Cfg::new(R)], "r (corpus of long single strings)"));
     } else {
         b.push(Block::new(Universe::new("U_adv(A_cons)", A_CONS, 1, 5, false), k1.clone(), "Lambda<=1 (no u,c)"));
         b.push(Block::new(Universe::new("U_adv(A_gcm)", A_GCM, 3, 1, false), k3.clone(), "Lambda<=3 (no u,c)"));
@@ -95,6 +100,10 @@ pub fn blocks(thorough: bool) -> Vec<Block> {
         b.push(Block::new(Universe::new("U_adv(A_gc)", A_GC, 2, 3, true), vec![Cfg::new(0)], "{}"));
         b.push(Block::new(Universe::new("U_abc3{a,b,c}", &["a", "b", "c"], 3, 6, false), vec![Cfg::new(0)], "{} (sets of up to 6 strings)"));
         b.push(Block::new(Universe::new("U_ab4{a,b}", &["a", "b"], 4, 6, false), vec![Cfg::new(0), Cfg::new(R), Cfg::new(NA | NE)], "{}, r, na+ne"));
+        b.push(Block::new(u_kind_pairs(2, 3, false), k1.clone(), "Lambda<=1 (no u,c)"));
+        b.push(Block::new(u_kind_pairs(2, 2, true), k2.clone(), "Lambda<=2 (no u,c)"));
+        b.push(Block::new(u_kind_pairs(3, 1, false), k2.clone(), "Lambda<=2 (no u,c)"));
+        b.push(Block::new(u_runs(), k3.clone(), "Lambda<=3 (no u,c)"));
     }
     b
 }
